@@ -234,9 +234,15 @@ func (sh *blobAccessMutableProtoHandle[T, TProto]) GetMutableProto() TProto {
 
 func (sh *blobAccessMutableProtoHandle[T, TProto]) increaseUseCount() {
 	sh.useCount++
+	// If the handle is queued for writing, remove it, as we'd better
+	// write it after further changes have been made.
+	sh.dequeueLocked()
+}
+
+// dequeueLocked removes the handle from the queue of handles to write,
+// if it is part of it.
+func (sh *blobAccessMutableProtoHandle[T, TProto]) dequeueLocked() {
 	if i := sh.handlesToWriteIndex; i >= 0 {
-		// Handle is queued for writing. Remove it, as we'd
-		// better write it after further changes have been made.
 		ss := sh.store
 		newLength := len(ss.handlesToWrite) - 1
 		lastHandle := ss.handlesToWrite[newLength]
@@ -262,7 +268,10 @@ func (sh *blobAccessMutableProtoHandle[T, TProto]) removeOrQueueForWriteLocked()
 		ss := sh.store
 		if sh.writtenVersion == sh.currentVersion {
 			// No changes were made to the message. Simply
-			// discard this handle.
+			// discard this handle. It may still be queued if
+			// it was released while the write that has now
+			// completed was in flight.
+			sh.dequeueLocked()
 			delete(ss.handles, sh.digest)
 			blobAccessMutableProtoHandlesDestroyed.Inc()
 		} else if sh.handlesToWriteIndex < 0 {
